@@ -900,6 +900,96 @@ impl LinkCcController {
     }
 }
 
+/// Verification hooks (feature `verif-hooks`): build an arbitrary controller
+/// state and read it back. The loss-sample list starts empty; the window
+/// aggregates are set directly.
+#[cfg(feature = "verif-hooks")]
+#[derive(Clone, Copy, Debug)]
+pub struct VerifCcParts {
+    pub state: CcState,
+    pub climb_mode: ClimbMode,
+    pub target_bps: u64,
+    pub rtt_ewma_ms: f64,
+    pub rtt_var_ms: f64,
+    pub rtt_min_ms: f64,
+    pub rtt_min_stamp_ms: u64,
+    pub last_rtt_update_ms: u64,
+    pub window_lost: u32,
+    pub window_sent: u32,
+    pub fast_recovery_ticks: u32,
+    pub loss_ewma: f64,
+    pub loss_ewma_last_ms: u64,
+    pub loss_high_since_ms: u64,
+    pub loss_degraded: bool,
+    pub backoff_ticks: u32,
+    pub backoff_entry_loss_pm: u32,
+    pub loss_uncongestive: bool,
+    pub uncongestive_ticks: u32,
+}
+
+#[cfg(feature = "verif-hooks")]
+impl LinkCongestionState {
+    pub fn verif_from_parts(p: VerifCcParts) -> Self {
+        Self {
+            state: p.state,
+            climb_mode: p.climb_mode,
+            target_bps: p.target_bps,
+            rtt_ewma_ms: p.rtt_ewma_ms,
+            rtt_var_ms: p.rtt_var_ms,
+            rtt_min_ms: p.rtt_min_ms,
+            rtt_min_stamp_ms: p.rtt_min_stamp_ms,
+            last_rtt_update_ms: p.last_rtt_update_ms,
+            loss_samples: Vec::new(),
+            window_lost: p.window_lost,
+            window_sent: p.window_sent,
+            fast_recovery_ticks: p.fast_recovery_ticks,
+            prev_bytes_sent_total: 0,
+            prev_nak_total: 0,
+            traffic_baseline_set: false,
+            loss_ewma: p.loss_ewma,
+            loss_ewma_last_ms: p.loss_ewma_last_ms,
+            loss_high_since_ms: p.loss_high_since_ms,
+            loss_degraded: p.loss_degraded,
+            backoff_ticks: p.backoff_ticks,
+            backoff_entry_loss_pm: p.backoff_entry_loss_pm,
+            loss_uncongestive: p.loss_uncongestive,
+            uncongestive_ticks: p.uncongestive_ticks,
+        }
+    }
+
+    pub fn verif_parts(&self) -> VerifCcParts {
+        VerifCcParts {
+            state: self.state,
+            climb_mode: self.climb_mode,
+            target_bps: self.target_bps,
+            rtt_ewma_ms: self.rtt_ewma_ms,
+            rtt_var_ms: self.rtt_var_ms,
+            rtt_min_ms: self.rtt_min_ms,
+            rtt_min_stamp_ms: self.rtt_min_stamp_ms,
+            last_rtt_update_ms: self.last_rtt_update_ms,
+            window_lost: self.window_lost,
+            window_sent: self.window_sent,
+            fast_recovery_ticks: self.fast_recovery_ticks,
+            loss_ewma: self.loss_ewma,
+            loss_ewma_last_ms: self.loss_ewma_last_ms,
+            loss_high_since_ms: self.loss_high_since_ms,
+            loss_degraded: self.loss_degraded,
+            backoff_ticks: self.backoff_ticks,
+            backoff_entry_loss_pm: self.backoff_entry_loss_pm,
+            loss_uncongestive: self.loss_uncongestive,
+            uncongestive_ticks: self.uncongestive_ticks,
+        }
+    }
+
+    pub fn verif_update_loss_ewma(&mut self, loss_pm: u32, now_ms: u64) {
+        self.update_loss_ewma(loss_pm, now_ms);
+    }
+
+    pub fn verif_loss_samples_len(&self) -> usize {
+        self.loss_samples.len()
+    }
+}
+
 #[cfg(test)]
 mod tests {
     use super::*;
